@@ -18,7 +18,10 @@ EXPLANATION = (
     "type/reserved/length big-endian, asks for exactly `length` more; every short or failed read "
     "ends in Evt17 and the length test dominates decoding, so a connection closed mid-PDU is "
     "reported as closed, never as a truncated PDU; one event and one PDU are queued per call. "
-    "Independent of how the stream is segmented because no step depends on chunk boundaries. Not "
+    "Independent of how the stream is segmented because no step depends on chunk boundaries. "
+    "(gap-tolerant) a typestate over connect() shows the connected socket carries no timeout or the "
+    "network timeout, never the connection timeout, so a gap between segments cannot turn into a "
+    "'closed connection'. Not "
     "decided: behaviour under real inter-chunk delays (C08) and kernel semantics."
 )
 
@@ -172,3 +175,63 @@ def run(repo: Repo, rep: Report, tier: str) -> None:
             ok = (m.name == "pynetdicom.transport" and q == "AssociationSocket.recv") or (m.name == "pynetdicom.dul" and q == "DULServiceProvider._read_pdu_data")
             rep.check(ok, "one-per-call", f"{m.name.replace('pynetdicom.', '')}.{q}", enclosing(c, (ast.stmt,)), "a second reader of the association's socket would steal bytes from the PDU stream", mod=m, node=c)
     rep.floor("socket read sites", n_sock, 3)
+    check_gap_tolerance(repo, rep)
+
+
+def check_gap_tolerance(repo: Repo, rep: Report) -> None:
+    """the connected socket must not carry the *connection* timeout: recv() would raise on an
+    intra-PDU gap longer than it and the partial PDU would be reported as a closed connection"""
+    rep.rule("gap-tolerant", "once connected the socket's timeout is None or the network timeout, never the connection timeout; accepted sockets are not given a shorter one")
+    tr = repo.mod("transport")
+    fn = repo.func("transport", "AssociationSocket.connect")
+    fq = "transport.AssociationSocket.connect"
+    cfg = CFG(fn, body=body_nodoc(fn), local_exc_only=True)
+
+    def classify(arg: ast.AST) -> str:
+        t = norm(strip_cast(arg))
+        if t == "None":
+            return "none"
+        if t.endswith("network_timeout"):
+            return "network"
+        if t.endswith("connection_timeout"):
+            return "connection"
+        return f"other:{t}"
+
+    # initial class: what _create_socket leaves on the socket
+    cs = repo.func("transport", "AssociationSocket._create_socket")
+    init_calls = [c for c in walk_no_nested(cs) if isinstance(c, ast.Call) and isinstance(c.func, ast.Attribute) and c.func.attr == "settimeout"]
+    init = classify(init_calls[-1].args[0]) if init_calls else "none"
+    rep.check(init in ("none", "network"), "gap-tolerant", "transport.AssociationSocket._create_socket", init_calls[-1] if init_calls else "no settimeout", f"a new socket starts with timeout class '{init}'", mod=tr, node=cs)
+
+    def transfer(n, st):
+        if n.kind == "stmt":
+            for c in calls_at(n):
+                if isinstance(c.func, ast.Attribute) and c.func.attr == "settimeout" and norm(c.func.value) == "self.socket" and c.args:
+                    other = {l for _, l in n.succ if l != "exc"}
+                    return [(classify(c.args[0]), other), (st, {"exc"})]
+        return [(st, {l for _, l in n.succ})]
+
+    ins, pred = typestate(cfg, init, transfer)
+    marks = [n for n in cfg.nodes if n.kind == "stmt" and norm(n.ast) == "self._is_connected = True"]
+    rep.need(len(marks) == 1, f"{fq}: `self._is_connected = True` not found")
+    states = sorted(ins.get(marks[0].id, ()))
+    bad = [s for s in states if s not in ("none", "network")]
+    rep.check(not bad and bool(states), "gap-tolerant", fq, f"socket timeout at the point the connection is marked open: {states}", f"the connected socket keeps timeout class {bad}: a PDU arriving in two segments with a gap longer than that timeout makes recv() raise, which _read_pdu_data reports as a closed connection (Evt17) although the peer is alive and within the network timeout", mod=tr, node=marks[0].ast, path=witness(cfg, pred, marks[0], bad[0]) if bad else None)
+    # nobody else puts a timeout on an association socket (accepted sockets stay blocking)
+    n_other = 0
+    for mname, m in sorted(repo.modules.items()):
+        short = mname.replace("pynetdicom.", "")
+        if short.startswith(("apps.", "tests.", "benchmarks.")):
+            continue
+        for c in ast.walk(m.tree):
+            if isinstance(c, ast.Call) and isinstance(c.func, ast.Attribute) and c.func.attr == "settimeout":
+                from ..loader import qualname
+                q = f"{short}.{qualname(c)}"
+                n_other += 1
+                if q in ("transport.AssociationSocket.connect", "transport.AssociationSocket._create_socket"):
+                    continue
+                cls = classify(c.args[0]) if c.args else "none"
+                # the listening socket of a server may carry the network timeout (accept() wake-ups)
+                ok = q == "transport.AssociationServer.server_bind" and cls == "network"
+                rep.check(ok, "gap-tolerant", q, enclosing(c, (ast.stmt,)), f"a socket timeout of class '{cls}' is set outside the two known places: if it lands on an association socket, recv() gives up on slow segments", mod=m, node=c)
+    rep.floor("settimeout call sites", n_other, 3)
